@@ -269,6 +269,47 @@ def r2(prog, res):
                             "%s receives `strict` but never reads it: everything it reads is handled with the callee defaults" % f.name)
 
 
+def r4_usermsg_merged(prog, res):
+    """The lenient substitution is reported with SEVERITY_USERMSG, the mildest severity that still is a message.  Wherever a reader
+    merges the severity of a part (attribute, part of a complex instance, instance) into the enclosing descriptor under a threshold
+    test `v <op> SEVERITY_x`, that test must hold for v == SEVERITY_USERMSG - otherwise the user message is dropped on the way up and
+    the file is accepted silently."""
+    sev = [it for it in prog.enums.values() if "SEVERITY_USERMSG" in it][0]
+    U = sev["SEVERITY_USERMSG"]
+    n = 0
+    counters = {}
+    for f in prog.all_functions():
+        if f.component not in ("clstepcore", "cleditor") or f.cfg is None:
+            continue
+        for x in f.walk():
+            if x["k"] != "If":
+                continue
+            c = strip(x["ch"][0])
+            if c is None or c["k"] != "Binary" or c.get("op") not in ("<", "<=", ">", ">=", "==", "!="):
+                continue
+            a, b = strip(c["ch"][0]), strip(c["ch"][1])
+            for v, k, flip in ((a, b, False), (b, a, True)):
+                if v is None or k is None or v["k"] != "Ref" or v.get("dk") != "local" or "Severity" not in f.ty(v) or not isinstance(k.get("val"), int):
+                    continue
+                merges = [y for y in walk(x["ch"][1]) if y["k"] == "Call" and (y.get("fn") or "").endswith("GreaterSeverity") and
+                          any(strip(z) is not None and strip(z).get("d") == v["d"] for z in call_args(y))]
+                if not merges:
+                    continue
+                n += 1
+                op = c["op"]
+                if flip:
+                    op = {"<": ">", "<=": ">=", ">": "<", ">=": "<=", "==": "==", "!=": "!="}[op]
+                holds = {"<": U < k["val"], "<=": U <= k["val"], ">": U > k["val"], ">=": U >= k["val"], "==": U == k["val"], "!=": U != k["val"]}[op]
+                base = "R4|%s|%s|merge-threshold" % (f.relfile(), f.name)
+                c0 = counters.get(base, 0)
+                counters[base] = c0 + 1
+                res.add("R4.usermsg_passes_merge", base if c0 == 0 else "%s#%d" % (base, c0), f.where(x), holds,
+                        "`%s` holds for SEVERITY_USERMSG: the user message of a lenient substitution is merged upwards" % expr_str(c) if holds else
+                        "`%s` is false for SEVERITY_USERMSG: the severity and message of a lenient substitution (\"missing and required ... replacing "
+                        "with ''\") are not merged into the instance, so the file is accepted without the user message" % expr_str(c))
+    res.floor("R4.usermsg_passes_merge", "severity-threshold merges in the readers", n, 1)
+
+
 def r3(prog, res):
     sev = [it for it in prog.enums.values() if "SEVERITY_USERMSG" in it][0]
     ok = sev["SEVERITY_USERMSG"] > sev["SEVERITY_INCOMPLETE"] and sev["SEVERITY_NULL"] > sev["SEVERITY_USERMSG"] \
@@ -323,6 +364,7 @@ def r3(prog, res):
 
 
 def run(prog, res, tier):
+    r4_usermsg_merged(prog, res)
     r1(prog, res)
     r2(prog, res)
     r3(prog, res)
